@@ -1295,9 +1295,20 @@ class Region:
             if i in skip:
                 continue
             for lab in self.labels.get(i, ()):
-                if lab == TID or lab in allowed:
+                if lab == TID or lab in allowed or (isinstance(lab, tuple) and lab[0] in allowed):
                     out.add(lab)
         return out
+
+    def _missing_collapsed(self, labs, ctx):
+        """names of collapsed worksharing variables the address does not depend on (empty = the address
+        distinguishes every iteration tuple).  An address indexed by the thread id is a private slice."""
+        if TID in labs:
+            return []
+        miss = []
+        for l in ctx.ws:
+            if l.id in labs and len(l.ivs) > 1:
+                miss += [l.iv_names[k_] for k_ in range(len(l.ivs)) if (l.id, k_) not in labs]
+        return miss
 
     def is_private_var(self, vid, ctx):
         if vid in self.func.statics:
@@ -1313,8 +1324,10 @@ class Region:
 
     def _propagate(self):
         for loop in self.ws_loops:
-            for iv in loop.ivs:
-                self.labels.setdefault(iv, set()).add(loop.id)
+            for k_, iv in enumerate(loop.ivs):
+                # label of the loop, plus one label per collapsed variable: with collapse(n) the unit of
+                # work handed to a thread is the TUPLE of the n variables
+                self.labels.setdefault(iv, set()).update((loop.id, (loop.id, k_)))
         f = self.func
         for _ in range(50):
             ch = False
@@ -1430,8 +1443,10 @@ class Region:
         g = self._thread_selective_guard(ctx)
         if g:
             return "guarded", g
+        missing = []
         if depsets is None:
             labs = self.taint(expr, ctx)
+            missing = self._missing_collapsed(labs, ctx)
         else:
             # callee stores: every store's address must depend on some thread-partitioned argument
             labs = set()
@@ -1445,10 +1460,16 @@ class Region:
                 if not ld:
                     labs = set()
                     break
+                missing = missing or self._missing_collapsed(ld, ctx)
                 labs |= ld
+        if labs and missing:
+            return "violation", ("the loops are collapsed, so one thread's unit of work is a tuple of (%s); the "
+                                 "address does not depend on %s, so iterations that differ only in it run on "
+                                 "different threads and hit the same location" % (
+                                     ", ".join(n_ for l in ctx.ws for n_ in l.iv_names), ", ".join(missing)))
         if labs:
             names = []
-            for lab in sorted(labs):
+            for lab in sorted(labs, key=str):
                 if lab == TID:
                     names.append("omp_get_thread_num()")
                 else:
@@ -1817,7 +1838,7 @@ class Region:
         if not labs:
             return "no partition (%s)" % ("inside omp %s" % ctx.prot if ctx.prot else "every thread, whole object")
         out = []
-        for lab in sorted(labs):
+        for lab in sorted(labs, key=str):
             if lab == TID:
                 out.append("thread id")
             else:
